@@ -69,6 +69,13 @@ func checkC06(run *Run, res *Result) {
 		e := &run.Evs[i]
 		k := vbKey{e.M, e.Vb}
 		switch e.K {
+		case journal.KReq:
+			// the position a session loaded is "handed out" from the moment its stream request leaves the client:
+			// with the file backend a Commit during the open phase writes every vBucket, also those whose
+			// request the node has not answered yet
+			if e.S == "CMD_DCPSTREAMREQ" && e.Off != nil && e.U&0x80 != 0 {
+				gh(e.Vb)[offTuple(&journal.Off{UUID: e.Off.UUID, Seq: e.Off.Seq, Start: e.Off.Start, End: e.Off.End})] = true
+			}
 		case journal.KSReq:
 			if e.S2 != "ok" || e.Off == nil {
 				continue
